@@ -31,6 +31,10 @@ class Injected(Exception):
 CALLABLES = [
     # (label, module path, attribute, inside the cache write?)
     ("JokerSamples.write", "thejoker.samples:JokerSamples", "write", True),
+    # failures INSIDE the cache write, after files may already exist on disk
+    ("write_table_hdf5", "thejoker.samples", "write_table_hdf5", True),
+    ("h5py.Group.create_dataset", "h5py:Group", "create_dataset", True),
+    ("get_yaml_from_table", "astropy.table.meta", "get_yaml_from_table", True),
     ("read_batch", "thejoker.multiproc_helpers", "read_batch", False),
     ("batch_tasks", "thejoker.multiproc_helpers", "batch_tasks", False),
     ("run_worker", "thejoker.multiproc_helpers", "run_worker", False),
@@ -111,6 +115,12 @@ class Injector:
         return False
 
 
+def is_cache_like(f):
+    """sample-cache files (pytensor and multiprocessing drop unrelated tmp* files/dirs into TMPDIR: ignored)"""
+    b = os.path.basename(f)
+    return any(x in b for x in (".hdf5", ".h5", ".fits", ".partial"))
+
+
 def sha(fn):
     return hashlib.sha256(open(fn, "rb").read()).hexdigest()
 
@@ -158,7 +168,7 @@ def run_case(env, case):
         ps = env["user_fn"]
     else:
         ps = {"not": "samples"}
-    before_files = sorted(glob.glob(os.path.join(env["tmp"], "*.hdf5")))
+    before_files = sorted(f for f in glob.glob(os.path.join(env["tmp"], "*")) if os.path.isfile(f) and is_cache_like(f))
     user_sha = sha(env["user_fn"])
     obs = None
     with Injector(owner, attr, case["k"], exc) as inj:
@@ -177,7 +187,7 @@ def run_case(env, case):
             obs = "ObsRaisedOther"
             problems.append(f"{type(e).__name__}: {str(e)[:150]} reached the caller instead of the injected failure")
     fired = inj.fired
-    after_files = sorted(glob.glob(os.path.join(env["tmp"], "*.hdf5")))
+    after_files = sorted(f for f in glob.glob(os.path.join(env["tmp"], "*")) if os.path.isfile(f) and is_cache_like(f))
     leaked = [f for f in after_files if f not in before_files]
     intact = sha(env["user_fn"]) == user_sha
     # property, read directly
@@ -214,6 +224,57 @@ def run_case(env, case):
         fault = "(Some 1%nat)" if case["input"] == "obj" else "(Some 0%nat)"
     term = f"({inp}, {fault}, {obs}, {len(leaked)}%nat, {'true' if intact else 'false'})"
     return term, problems, fired
+
+
+def multipool_scenarios(ctx, env):
+    """Real worker processes: a failure raised inside a worker (a library without the jitter column makes
+    read_batch fail in the child) must reach the caller, leak nothing, and leave the SAME TheJoker/pool usable."""
+    import schwimmbad
+    import sampling as S
+    from thejoker.thejoker import TheJoker
+    import c02
+
+    out = []
+    bad_lib = S.make_library(48, seed=5, with_lnprior=True)
+    bad_lib.tbl.remove_column("s")
+    good = env["lib"]
+    for entry in ENTRIES:
+        for inp in ("obj", "str"):
+            case = dict(family="multipool", entry=entry, input=inp)
+            problems = []
+            pool = schwimmbad.MultiPool(processes=2)
+            try:
+                joker = TheJoker(c02.real_prior(), rng=np.random.default_rng(11), pool=pool)
+                env2 = dict(env, joker=joker, pool=pool)
+                if inp == "obj":
+                    ps = bad_lib
+                else:
+                    ps = os.path.join(ctx.scratch, "bad_user.hdf5")
+                    bad_lib.write(ps, overwrite=True)
+                before = sorted(f for f in glob.glob(os.path.join(env["tmp"], "*")) if os.path.isfile(f) and is_cache_like(f))
+                try:
+                    call_entry(env2, entry, ps)
+                    problems.append("a library without the jitter column was processed without error")
+                except Exception:
+                    pass
+                leaked = [f for f in sorted(glob.glob(os.path.join(env["tmp"], "*"))) if os.path.isfile(f) and is_cache_like(f) and f not in before]
+                if leaked:
+                    problems.append(f"worker failure on a multi-process pool leaked {[os.path.basename(f) for f in leaked]}")
+                    for f in leaked:
+                        os.unlink(f)
+                try:
+                    ll = joker.marginal_ln_likelihood(env["data"], good if inp == "obj" else env["user_fn"], n_batches=3)
+                    if not np.array_equal(ll, env["base_ll"]):
+                        problems.append("follow-up call after a worker failure returns different likelihoods (multi-process pool)")
+                except Exception as e:
+                    problems.append(f"follow-up call on the same TheJoker after a worker failure raised {type(e).__name__}: {str(e)[:100]}")
+            finally:
+                try:
+                    pool.close()
+                except Exception:
+                    pass
+            out.append((case, problems))
+    return out
 
 
 def gen_cases(ctx):
@@ -253,6 +314,10 @@ def run(ctx):
     env = setup(ctx)
     cases = gen_cases(ctx)
     terms, kept, nt = run_cases(ctx, cases, env)
+    for case, problems in multipool_scenarios(ctx, env):
+        nt += 1
+        if problems:
+            ctx.fail("predicate", "C13:faults", "; ".join(problems[:2]) + f" [{case}]", case=case)
     if ok:
         try:
             for i in ctx.coq_check_cases("c13", HEADER, terms, "check", shard=400):
@@ -261,14 +326,14 @@ def run(ctx):
             ctx.broken_ties.append("correspondence could not be evaluated: " + str(e)[:500])
     ctx.samples.append({"input": kept[0], "coq_case": terms[0]})
     ctx.samples.append({"input": kept[len(kept) // 2], "coq_case": terms[len(kept) // 2]})
-    ctx.coverage.update(evaluations=len(cases), distinct_nontrivial=nt)
+    ctx.coverage.update(evaluations=len(cases) + 6, distinct_nontrivial=nt)
     return ctx.finish(
-        rule="fault enumeration: 3 entry points (marginal_ln_likelihood, rejection_sample, iterative_rejection_sample) x 10 internal callables "
-        "(cache write, read_batch, batch_tasks, run_worker, both workers, unpack, pool.map, tables.open_file, table_contains_column) x k-th "
-        "invocation (1..%d) x {JokerSamples object, file name}, serial pool, plus no-fault and wrong-type controls; non-trivial = the injected "
+        rule="fault enumeration: 3 entry points (marginal_ln_likelihood, rejection_sample, iterative_rejection_sample) x 13 internal callables "
+        "(cache write and three points inside it -- write_table_hdf5, h5py create_dataset, YAML header --, read_batch, batch_tasks, run_worker, both workers, unpack, pool.map, tables.open_file, table_contains_column) x k-th "
+        "invocation (1..%d) x {JokerSamples object, file name}, serial pool, plus no-fault and wrong-type controls, plus 6 scenarios on a real 2-process MultiPool (failure inside a worker process, then a follow-up call on the same object); non-trivial = the injected "
         "failure actually fired" % (3 if ctx.tier == "quick" else 6),
         assumptions=["creating / closing / unlinking the temporary file and the OS do not fail; a worker process killed by the OS (not an exception) is not modelled",
-                     "multi-process pools are not part of the quick tier (monkey-patched faults do not cross process boundaries)",
+                     "on multi-process pools the failure is a natural one (library without the jitter column) because monkey-patched faults do not cross process boundaries",
                      "translator tools/py2v_tempfile.py (fail-closed), validated by this run's correspondence"],
         exhaustive=True,
     )
@@ -278,7 +343,7 @@ def replay(ctx, path):
     payload = json.load(open(path))
     ctx.make_overlay(need_kernel=True)
     case = payload.get("case")
-    if case is None:
+    if case is None or case.get("family") == "multipool":
         return run(ctx)
     env = setup(ctx)
     term, problems, fired = run_case(env, case)
